@@ -94,7 +94,8 @@ Healthy(c, d, h, a) ==
      /\ TreeOK(c, d, h.ptRoot)
      /\ \A t \in names \ {"sys_pages"} : TreeOK(c, d, RootOf(S, d, t))
      /\ \A k \in IdsView(c, d, h) : k <= h.lastKey
-     /\ \A p \in (DOMAIN d) \cup (DOMAIN c) : p < h.nx
+     \* (a stale free pointer - every page written, the header not - is damage too, but a latent one: nothing the
+     \* harness does at the end of a path allocates a page, so it can never be what made a replay fail)
 
 Selected == CASE EmitSel = "all" -> TRUE
               [] EmitSel = "crash" -> \E i \in 1..Len(hist') : hist'[i].a = "crash"
